@@ -24,7 +24,7 @@ theorem structure_all_histories (ops : List Op) :
       v.fields.Nodup ∧ v.units.length = v.fields.length ∧ v.cells.length = prod v.shape ∧
       (∀ d ∈ v.shape, 0 < d) ∧
       ∀ r, some r ∈ v.cells → ∃ a, (run init ops).heap[r]? = some a ∧ a.ncols = v.fields.length ∧
-        ∀ row ∈ a.rows, row.length = v.fields.length := by
+        ∀ row ∈ a.rows, row.length = v.fields.length ∧ (a.isInt = true → ∀ x ∈ row, IsIntQ x) := by
   intro v hv
   have hI := invariant_all_histories ops
   have hvok := hI.vecs v hv
@@ -34,7 +34,8 @@ theorem structure_all_histories (ops : List Op) :
   refine ⟨a, ha, hn, ?_⟩
   intro row hrow
   rw [← hn]
-  exact hI.wf a (List.mem_of_getElem? ha) row hrow
+  have hwf := hI.wf a (List.mem_of_getElem? ha)
+  exact ⟨hwf.rect row hrow, fun ht => hwf.typed ht row hrow⟩
 
 /-! ## 2. flatten / set_flattened -/
 
@@ -56,30 +57,41 @@ theorem flatten_spec (heap : List Arr) (j : Nat) : ∀ cells : List (Option Ref)
       rw [ih]
       rfl
 
-/-- **write-back**: `v[f].set_flattened(v[f].flatten())` changes nothing at all — for every state,
-also when one array sits in several cells or several vectors -/
-theorem writeback_identity (s : State) (vid : Nat) (name : String) : (opWriteBack s vid name).1 = s := by
+/-- **write-back**: `v[f].set_flattened(v[f].flatten())` changes nothing at all — on every state
+whose arrays are rectangular and well-typed (int64 arrays hold integers: then the cast of the
+assignment is the identity), also when one array sits in several cells or several vectors.
+(With dtypes in the model this needs the typing half of the invariant; it holds on every
+reachable state: `writeback_identity_all_histories`.) -/
+theorem writeback_identity (s : State) (hwf : ∀ a ∈ s.heap, a.WF) (vid : Nat) (name : String) :
+    (opWriteBack s vid name).1 = s := by
   unfold opWriteBack
   split
   · rfl
   · split
     · rfl
-    · simp [setFlat, fill_flatten_self]
+    · simp [setFlat, fill_flatten_self _ _ _ hwf]
+
+theorem writeback_identity_all_histories (ops : List Op) (vid : Nat) (name : String) :
+    (opWriteBack (run init ops) vid name).1 = run init ops :=
+  writeback_identity _ (invariant_all_histories ops).wf vid name
 
 /-- consequently the re-assignment hidden in `v[f] += c` adds nothing to `_apply_op` -/
-theorem fieldOp_state (s : State) (vid : Nat) (name : String) (f : Rat → Rat) (v : Vec) (j : Nat)
-    (hv : s.getVec vid = .ok v) (hj : fieldIndex v name = .ok j) :
+theorem fieldOp_state (s : State) (hwf : ∀ a ∈ s.heap, a.WF) (vid : Nat) (name : String) (f : Rat → Rat)
+    (v : Vec) (j : Nat) (hv : s.getVec vid = .ok v) (hj : fieldIndex v name = .ok j) :
     (opFieldOp s vid name f).1 = { s with heap := applyOp j f s.heap v.cells } := by
   unfold opFieldOp
-  simp [hv, hj, setFlat, fill_flatten_self]
+  simp [hv, hj, setFlat, fill_flatten_self _ _ _ (applyOp_spec j f v.cells s.heap hwf).1]
 
-/-- **set_flattened then flatten gives the values back** when no array sits in two cells of the
-vector (with aliased cells the later chunk wins, as in the code). -/
+/-- **set_flattened then flatten gives back what was written**, cell chunk by cell chunk cast to
+that cell's dtype (`castFlat`: float64 cells keep the value, int64 cells truncate toward zero as
+NumPy's assignment does), when no array sits in two cells of the vector (with aliased cells the
+later chunk wins, as in the code). -/
 theorem flatten_after_setFlattened {s : State} (hI : Inv s) {vid : Nat} {v : Vec} {name : String} {xs : List Rat}
     (hv : s.getVec vid = .ok v) (hn : name ∈ v.fields) (hnd : (refsOf v.cells).Nodup)
     (hl : xs.length = (flattenField s.heap v.cells (v.fields.idxOf name)).length) :
     (opSetFlattened s vid name (.oneD xs)).2 = .none ∧
-    flattenField (opSetFlattened s vid name (.oneD xs)).1.heap v.cells (v.fields.idxOf name) = xs ∧
+    flattenField (opSetFlattened s vid name (.oneD xs)).1.heap v.cells (v.fields.idxOf name) =
+      castFlat s.heap v.cells xs ∧
     (opSetFlattened s vid name (.oneD xs)).1.vecs = s.vecs := by
   have hvok := hI.vecs v (getVec_mem hv)
   have hj : fieldIndex v name = .ok (v.fields.idxOf name) := by
@@ -90,6 +102,15 @@ theorem flatten_after_setFlattened {s : State} (hI : Inv s) {vid : Nat} {v : Vec
   rw [if_neg (by simpa using hl)]
   exact ⟨rfl, flatten_fill _ _ hlt v.cells s.heap xs hI.wf hvok.cells hnd hl, rfl⟩
 
+/-- on float64 cells: flatten after `set_flattened xs` is exactly `xs` -/
+theorem flatten_after_setFlattened_float {s : State} (hI : Inv s) {vid : Nat} {v : Vec} {name : String} {xs : List Rat}
+    (hv : s.getVec vid = .ok v) (hn : name ∈ v.fields) (hnd : (refsOf v.cells).Nodup)
+    (hl : xs.length = (flattenField s.heap v.cells (v.fields.idxOf name)).length)
+    (hf : ∀ r a, some r ∈ v.cells → s.heap[r]? = some a → a.isInt = false) :
+    flattenField (opSetFlattened s vid name (.oneD xs)).1.heap v.cells (v.fields.idxOf name) = xs := by
+  rw [(flatten_after_setFlattened hI hv hn hnd hl).2.1]
+  exact castFlat_float _ v.cells s.heap xs hf hl
+
 /-! ## 3. Frames: an operation on X writes only to arrays that sit in X -/
 
 theorem frame_fieldOp (s : State) (vid : Nat) (name : String) (f : Rat → Rat) (v : Vec) (r : Ref)
@@ -99,8 +120,14 @@ theorem frame_fieldOp (s : State) (vid : Nat) (name : String) (f : Rat → Rat) 
   cases hj : fieldIndex v name with
   | error e => simp [opFieldOp, hv, hj]
   | ok j =>
-    rw [fieldOp_state s vid name f v j hv hj]
-    exact ⟨applyOp_frame j f r v.cells s.heap hr, rfl, rfl⟩
+    unfold opFieldOp
+    simp only [hv, hj, setFlat]
+    split
+    · exact ⟨applyOp_frame j f r v.cells s.heap hr, rfl, rfl⟩
+    · refine ⟨?_, rfl, rfl⟩
+      show (fill j _ v.cells _)[r]? = _
+      rw [fill_frame j r v.cells _ _ hr]
+      exact applyOp_frame j f r v.cells s.heap hr
 
 theorem frame_setFlattened (s : State) (vid : Nat) (name : String) (vals : FlatVal) (v : Vec) (r : Ref)
     (hv : s.getVec vid = .ok v) (hr : some r ∉ v.cells) :
@@ -179,12 +206,11 @@ theorem fromShape_fresh {s s' : State} (hI : Inv s) {shape : List Int} {nf : Opt
   unfold opFromShape at h
   split at h
   · simp at h
-  · simp at h
   · split at h
     · simp at h
     · split at h
       · simp at h
-      · rename_i sh _ _ _ fs _ _ us _
+      · rename_i sh _ _ fs _ _ us _
         simp only [State.mkVec, Prod.mk.injEq, Res.newVec.injEq] at h
         obtain ⟨h1, h2⟩ := h
         subst h1; subst h2
@@ -241,52 +267,76 @@ selected indices, and — for ANY number of fixed dimensions — the cell of `w`
 expression assigns to `o` (`Addr`), both located by row-major offsets. -/
 theorem slice_spec {s s' : State} {vid id : Nat} {idx : List Ix} (h : opGetItem s vid idx = (s', .newVec id)) :
     ∃ (v w : Vec) (ls : List (List Int)), s.vecs[vid]? = some v ∧ s'.vecs[id]? = some w ∧
-      resolveAll false v.shape (padIdx v.shape.length idx) = .ok ls ∧
+      resolveAll false v.shape (padIdx v.shape.length (idx.take v.shape.length)) = .ok ls ∧
       w.shape = ls.map List.length ∧ w.fields = v.fields ∧ w.units = v.units ∧ s'.heap = s.heap ∧
       ∀ o src, Addr v.shape ls o src →
         (w.cells[flatIdx w.shape o]?).join = (v.cells[flatIdx v.shape src]?).join := by
+  -- the work happens in `getItemCore` on at most `nd` indices (surplus indices are dropped by `zip`;
+  -- with an all-int cell address they index into the cell array and never produce a vector)
+  have core : ∀ (v : Vec) (idx' : List Ix), s.getVec vid = .ok v → getItemCore s v idx' = (s', .newVec id) →
+      ∃ (w : Vec) (ls : List (List Int)), s'.vecs[id]? = some w ∧
+        resolveAll false v.shape (padIdx v.shape.length idx') = .ok ls ∧
+        w.shape = ls.map List.length ∧ w.fields = v.fields ∧ w.units = v.units ∧ s'.heap = s.heap ∧
+        ∀ o src, Addr v.shape ls o src →
+          (w.cells[flatIdx w.shape o]?).join = (v.cells[flatIdx v.shape src]?).join := by
+    intro v idx' hv h
+    unfold getItemCore at h
+    simp only at h
+    split at h
+    · split at h
+      · simp at h
+      · split at h
+        · simp at h
+        · simp at h
+    · split at h
+      · simp at h
+      · rename_i ls hls
+        split at h
+        · simp at h
+        · rename_i ps hps
+          split at h
+          · simp at h
+          · split at h
+            · simp at h
+            · rename_i fs hfs
+              split at h
+              · simp at h
+              · rename_i us hus
+                obtain ⟨e, _⟩ := validateFields_ok hfs
+                subst e
+                have hu : us = v.units := by
+                  unfold validateUnits at hus
+                  simp only at hus
+                  split at hus
+                  · cases hus
+                  · cases hus; rfl
+                simp only [State.mkVec, Prod.mk.injEq, Res.newVec.injEq] at h
+                obtain ⟨h1, h2⟩ := h
+                subst h1; subst h2
+                refine ⟨Vec.mk (ls.map List.length) (ps.map fun p => (v.cells[p]?).join) v.fields us s.metas.length, ls, by simp, hls, rfl, rfl, hu, rfl, ?_⟩
+                intro o src haddr
+                have := positions_addr haddr ps hps
+                simp only [List.getElem?_map, this, Option.map_some, Option.join_some]
   unfold opGetItem at h
   split at h
   · simp at h
   · rename_i v hv
     simp only at h
     split at h
-    · simp at h
     · split at h
-      · split at h
-        · simp at h
-        · split at h
-          · simp at h
-          · simp at h
-      · split at h
-        · simp at h
-        · rename_i ls hls
-          split at h
-          · simp at h
-          · rename_i ps hps
-            split at h
-            · simp at h
-            · split at h
-              · simp at h
-              · rename_i fs hfs
-                split at h
-                · simp at h
-                · rename_i us hus
-                  obtain ⟨e, _⟩ := validateFields_ok hfs
-                  subst e
-                  have hu : us = v.units := by
-                    unfold validateUnits at hus
-                    simp only at hus
-                    split at hus
-                    · cases hus
-                    · cases hus; rfl
-                  simp only [State.mkVec, Prod.mk.injEq, Res.newVec.injEq] at h
-                  obtain ⟨h1, h2⟩ := h
-                  subst h1; subst h2
-                  refine ⟨v, Vec.mk (ls.map List.length) (ps.map fun p => (v.cells[p]?).join) v.fields us s.metas.length, ls, getVec_ok' hv, by simp, hls, rfl, rfl, hu, rfl, ?_⟩
-                  intro o src haddr
-                  have := positions_addr haddr ps hps
-                  simp only [List.getElem?_map, this, Option.map_some, Option.join_some]
+      · -- indexing INTO a cell array returns a NumPy value or raises, never a vector
+        exfalso
+        unfold getItemLong at h
+        simp only at h
+        repeat' split at h
+        all_goals simp at h
+      · obtain ⟨w, ls, h1, h2, h3⟩ := core v _ hv h
+        refine ⟨v, w, ls, getVec_ok' hv, h1, ?_, h3⟩
+        exact h2
+    · rename_i hle
+      obtain ⟨w, ls, h1, h2, h3⟩ := core v _ hv h
+      refine ⟨v, w, ls, getVec_ok' hv, h1, ?_, h3⟩
+      rw [List.take_of_length_le (by omega)]; exact h2
 
 /-- the same for the list returned by `get_data` with slice / list indices (explicit bounds
 checks, so every index is already in range): entry number `flatIdx lens o` of the returned list
@@ -319,7 +369,7 @@ theorem getData_spec {s : State} {vid : Nat} {idx : List Ix} {v : Vec} {out : Li
 
 /-- the invariant is not vacuous: a world with an aliased array and a 3-D vector satisfies it
 (it is reached by a history) and violating states exist (a cell with the wrong column count). -/
-example : ¬ Inv (State.mk [Arr.mk 1 [[0]]] [Vec.mk [1] [some 0] ["x", "y"] ["a", "b"] 0] [[]]) := by
+example : ¬ Inv (State.mk [Arr.mk 1 [[0]] false] [Vec.mk [1] [some 0] ["x", "y"] ["a", "b"] 0] [[]]) := by
   intro h
   obtain ⟨a, ha, hn⟩ := (h.vecs _ List.mem_cons_self).cells (some 0) List.mem_cons_self 0 rfl
   simp at ha; subst ha; simp at hn
@@ -328,7 +378,7 @@ example : ¬ Inv (State.mk [Arr.mk 1 [[0]]] [Vec.mk [1] [some 0] ["x", "y"] ["a"
 `add_remove_fields` are satisfiable: a reachable state with a populated vector whose cells do not
 alias, a field name it has and new names it does not have. -/
 def demoOps : List Op :=
-  [.alloc 2 [[1, 2], [3, 4]], .fromShape [2] none (some ["x", "y"]) none, .setItem 0 [.int 0] (.one (.ref 0))]
+  [.alloc 2 [[1, 2], [3, 4]] false, .fromShape [2] none (some ["x", "y"]) none, .setItem 0 [.int 0] (.one (.ref 0))]
 example : Inv (run init demoOps) := invariant_all_histories _
 example : (run init demoOps).getVec 0 = .ok (Vec.mk [2] [some 0, none] ["x", "y"] ["none", "none"] 0) := rfl
 example : (refsOf [some 0, none]).Nodup := by decide
